@@ -7,14 +7,17 @@
 (*   names defined by an sdkconfig.rename there), WalkOrder (sequence of   *)
 (*   all dirs, parents first), IdfRoot, Components (IdfRoot/components or   *)
 (*   a name outside Dirs), Files (sequence of                              *)
-(*   [dir, uses (set of names)]).                                          *)
+(*   [dir, uses (set of names)]), Explicit / Includes (rename files named   *)
+(*   on the command line / directories given with --includes: global).     *)
 (* State: memo (the shared project-root cache), local / built (lazily built *)
 (* per-project sets), verdict.  Check(f) follows _find_project_root (walk  *)
 (* up, reuse memo, back-fill) and check_deprecated_options.                *)
 (***************************************************************************)
 EXTENDS Naturals, Sequences, FiniteSets, SequencesExt, TLC
 
-CONSTANTS Dirs, Parent, IsProject, RenameAt, WalkOrder, IdfRoot, Components, Files
+CONSTANTS Dirs, Parent, IsProject, RenameAt, WalkOrder, IdfRoot, Components, Files,
+          Explicit,   \* directories whose sdkconfig.rename is named on the command line
+          Includes    \* directories given with --includes
 
 Unset == "<unset>"
 None  == "<none>"
@@ -27,6 +30,8 @@ Under(d, root) == d = root \/ (Parent[d] # d /\ Under(Parent[d], root))
 LocalExact(root) == UNION {RenameAt[d] : d \in {e \in Dirs : Under(e, root) /\ NearestRoot(e) = root}}
 GlobalSet ==
   RenameAt[IdfRoot] \cup UNION {RenameAt[d] : d \in {e \in Dirs : Components \in Dirs /\ Under(e, Components)}}
+  \cup UNION {RenameAt[d] : d \in Explicit}                                   \* asked for by name: applies everywhere
+  \cup UNION {RenameAt[d] : d \in {e \in Dirs : \E i \in Includes : Under(e, i)}} \* found below an included directory
 ScopeOf(f) ==
   LET r == NearestRoot(Files[f].dir) IN
   GlobalSet \cup (IF r # None /\ r # IdfRoot THEN LocalExact(r) ELSE {})
